@@ -89,12 +89,12 @@ theorem inv_step (s : RefState) (op : RefOp) (hi : s.Inv) : (s.step op).Inv ∧ 
   cases op with
   | acquire h => exact inv_acq s h hi
   | release h => exact inv_rel s h hi
-  | retarget c c' =>
-    show (if s.holders.contains (.extPoly c) then (s.rel (.extPoly c)).acq (.extPoly c') else s).Inv ∧
-      (if s.holders.contains (.extPoly c) then (s.rel (.extPoly c)).acq (.extPoly c') else s).ctxRing = s.ctxRing
+  | retarget h h' =>
+    show (if s.holders.contains h then (s.rel h).acq h' else s).Inv ∧
+      (if s.holders.contains h then (s.rel h).acq h' else s).ctxRing = s.ctxRing
     split_ifs
-    · obtain ⟨i1, e1⟩ := inv_rel s (.extPoly c) hi
-      obtain ⟨i2, e2⟩ := inv_acq _ (.extPoly c') i1
+    · obtain ⟨i1, e1⟩ := inv_rel s h hi
+      obtain ⟨i2, e2⟩ := inv_acq _ h' i1
       exact ⟨i2, e2.trans e1⟩
     · exact ⟨hi, rfl⟩
 
@@ -141,7 +141,7 @@ example : (run (init (fun _ => 0)) [.acquire (.ringHandle 0), .acquire (.ctxHand
 /-- an external polynomial re-used as the output of an operation on another context moves its reference: the old
     context (held by nobody else) is freed, the new one gains a holder -/
 example : let s := run (init (fun c => c)) [.acquire (.ctxHandle 0), .acquire (.ctxHandle 1), .acquire (.extPoly 0),
-      .release (.ctxHandle 0), .retarget 0 1]
+      .release (.ctxHandle 0), .retarget (.extPoly 0) (.extPoly 1)]
     s.ctxCnt 0 = 0 ∧ s.ctxCnt 1 = 2 ∧ s.ringCnt 0 = 0 ∧ s.ringCnt 1 = 2 := by
   decide
 
